@@ -189,7 +189,13 @@ fn write_crate(dir: &Path, name: &str, repo: &Path, em: &Emitted) -> Result<(), 
     std::fs::write(dir.join("Cargo.toml"), toml).map_err(|e| e.to_string())?;
     std::fs::write(dir.join(".cargo/config.toml"), "[net]\noffline = true\n").map_err(|e| e.to_string())?;
     if !dir.join("Cargo.lock").exists() {
-        std::fs::copy(repo.join("Cargo.lock"), dir.join("Cargo.lock")).map_err(|e| format!("copy Cargo.lock: {e}"))?;
+        // the repository's lock file, or (when the tree has none) the harness's own, which
+        // covers the macro crates' dependencies as well
+        let harness_lock = dir.ancestors().find(|p| p.join("harness/Cargo.lock").exists()).map(|p| p.join("harness/Cargo.lock"));
+        let src = if repo.join("Cargo.lock").exists() { Some(repo.join("Cargo.lock")) } else { harness_lock };
+        if let Some(src) = src {
+            std::fs::copy(&src, dir.join("Cargo.lock")).map_err(|e| format!("copy {}: {e}", src.display()))?;
+        }
     }
     for (f, t) in &em.files {
         std::fs::write(src.join(f), t).map_err(|e| e.to_string())?;
